@@ -10,7 +10,8 @@ Inductive helper :=
 | E_XY (dx dy dur : Z) | E_Abs (rate : Z) (p1 p2 : option Z) | E_Pause (n : Z) | E_MotorsOff | E_MotorsOn (r1 r2 : Z)
 | E_Pen (up : bool) (delay : Z) (pin : option Z) | E_BConfig (pin state dir : Z) | E_BSet (pin state : Z)
 | E_PenPos (up : bool) (v : Z) | E_PenRate (up : bool) (v : Z) | E_Servo (ms : Z) (st : option Z) | E_Var (v i : Z) | E_ClearSteps | E_ClearAcc
-| E_MotorsOnQ (r1 r2 q1 q2 : Z).     (* motors_enable against a board whose QE reply is q1,q2 (0, 1, 2, 4, 8, 16) *)
+| E_MotorsOnQ (r1 r2 q1 q2 : Z)      (* motors_enable against a board whose QE reply is q1,q2 (0, 1, 2, 4, 8, 16) *)
+| NoPort (tag : Z).                  (* any helper called with no port (legacy: port None; class layer: not connected): nothing is sent *)
 
 Definition both (p1 p2 : option Z) : option (Z * Z) := match p1, p2 with Some a, Some b => Some (a, b) | _, _ => None end.
 (* what the model of the code emits *)
@@ -28,6 +29,7 @@ Definition model_emit (fx : bool) (h : helper) : list text :=
   | E_PenPos up v => e3_pen_pos up v | E_PenRate up v => e3_pen_rate up v | E_Servo ms st => e3_servo_timeout ms st | E_Var v i => e3_var_write v i
   | E_ClearSteps => e3_clear_steps | E_ClearAcc => e3_clear_acc
   | E_MotorsOnQ r1 r2 _ _ => [cat [T "EM,"; z (clamp05 r1); T ","; z (clamp05 r2)]]
+  | NoPort _ => []
   end.
 (* motors_enable as documented in its comments, against a board that reports both motors disabled (QE,0,0 - the harness's port):
    CU,50,0 first iff exactly one motor is requested; for a motor-2-only request the scale is read (QE) and set by EM,r2,r2
@@ -57,6 +59,7 @@ Definition doc_of (h : helper) : list text :=
   | L_BSet p s | E_BSet p s => doc (RqBSet p s) | L_Toggle => doc RqToggle | L_PenPos up v | E_PenPos up v => doc (RqPenPos up v)
   | L_PenRate up v | E_PenRate up v => doc (RqPenRate up v) | L_LayerVar v => doc (RqVarSet v None) | E_Var v i => doc (RqVarSet v (Some i))
   | E_MotorsOnQ r1 r2 q1 q2 => doc_motors_on_q r1 r2 q1 q2
+  | NoPort _ => []
   | L_Servo ms st | E_Servo ms st => doc (RqServoTimeout ms st)
   (* legacy layer, against a board that reports firmware va.vb.vc: the version query, then the command only from 2.6.0 on *)
   | L_ServoV va vb vc ms st => T "V" :: (if ver_ge [va; vb; vc] [2; 6; 0] then doc (RqServoTimeout ms st) else []) | E_ClearSteps => doc RqClearSteps | E_ClearAcc => doc RqClearAcc
